@@ -47,10 +47,21 @@ def current_log() -> list[list[str]]:
     return c.log if c is not None else _lock_free_records
 
 
+def enable_debug_logging() -> None:
+    """The application has switched debug logging on for everything (root level DEBUG).  The sink
+    keeps recording reports only (WARNING and above), so this changes what the library's own
+    ``isEnabledFor`` / ``getEffectiveLevel`` calls answer and nothing else."""
+    install_log_sink()
+    logging.getLogger().setLevel(logging.DEBUG)
+    logging.getLogger("chartparse").setLevel(logging.DEBUG)
+
+
 class _Sink(logging.Handler):
     def emit(self, record: logging.LogRecord) -> None:
         if getattr(_tls, "shadow", 0):
             return
+        if record.levelno < logging.WARNING:
+            return  # debug / info chatter is not a report
         try:
             msg = record.getMessage()
         except Exception as e:  # noqa: BLE001
